@@ -274,7 +274,12 @@ type bRun struct {
 }
 
 func runMapB(bin string, sc *ScenarioB) bRun {
-	cmd := exec.Command(bin)
+	// address-space randomisation off: pointer values (hashed map keys, channel
+	// addresses that order a select's cases) are then the same in every process
+	cmd := exec.Command("/usr/bin/setarch", "x86_64", "-R", bin)
+	if _, err := os.Stat("/usr/bin/setarch"); err != nil {
+		cmd = exec.Command(bin)
+	}
 	cmd.Env = []string{"LD_PRELOAD=" + bRandLib, "VERIF_RAND_SEED=" + strconv.FormatUint(sc.RandSeed, 10)}
 	cmd.Stdin = bytes.NewReader(scriptB(sc))
 	var buf bytes.Buffer
